@@ -1184,7 +1184,8 @@ func genC(r *vf.Run, pool *basePool, idx, k int) *input {
 				tj[p] ^= byte(1 << uint(rng.Intn(8)))
 				what = append(what, "bit")
 			case 1:
-				tj[p] = "0123456789-\"{}[],:nulltrue"[rng.Intn(27)]
+				const toks = "0123456789-\"{}[],:nulltrue"
+				tj[p] = toks[rng.Intn(len(toks))]
 				what = append(what, "tok")
 			case 2:
 				q := p + rng.Intn(40)
